@@ -514,7 +514,7 @@ pub fn finish(c: Check, recs: &[Rec], t0: Instant) -> i32 {
         eprintln!("HARNESS-ERROR: the run observed too little ({} non-trivial programs, {} iterations)", distinct.len(), iters);
         return 2;
     }
-    if inconclusive * 20 > recs.len() {
+    if inconclusive * 12 > recs.len() {
         eprintln!("HARNESS-ERROR: {} of {} programs inconclusive: {:?}", inconclusive, recs.len(), inconclusive_why);
         return 2;
     }
